@@ -333,6 +333,35 @@ def _kin(ctx, pym, dom, grid, sz, dim, nel, tab, pos):
                 ctx.tags.add(f"strain voigt={voigt}: {comp} ratio {ratio}")
                 ctx.bad('strain_affine', {'component': comp, 'ratio': ratio, 'voigt': voigt}, only,
                         got=got[:, 0], want=ref[:, 0], gradient=G, tol=tol)
+    # a call that is rejected (nodal vector with the wrong number of dofs per node, e.g. a temperature field) must leave
+    # the module usable: the next call with a valid affine field gives its strain
+    for wrong in ([1, dim + 1] if not (_only(case, part='after_rejected')) else []):
+        sig = pym.Signal('u', np.zeros(pos.shape[1] * dim))
+        m = pym.Strain(sig, domain=dom, voigt=True)
+        only = {'part': 'after_rejected', 'wrong': wrong}
+        try:
+            _run(m, sig, np.linspace(0.0, 1.0, pos.shape[1] * wrong))
+            ctx.observed.add(f'Strain accepts a nodal vector with {wrong} dofs per node on a {dim}-D domain')
+            continue
+        except Exception:  # noqa
+            pass
+        a, G = gt['generic']
+        u = fe.affine_nodal_field(pos, a, G)
+        ctx.ntrans += 2
+        # judged against a module that never saw the rejected call (the values themselves are judged above)
+        sig_f = pym.Signal('u', np.zeros(pos.shape[1] * dim))
+        ref = np.asarray(_run(pym.Strain(sig_f, domain=dom, voigt=True), sig_f, u.copy()))
+        try:
+            got = np.asarray(_run(m, sig, u.copy()))
+            err = float(np.max(np.abs(got - ref))) if got.shape == ref.shape else float('inf')
+        except Exception as exc:  # noqa
+            got, err = f"{type(exc).__name__}: {exc}"[:300], float('inf')
+        if err <= 1e-9 * maxabs(u) / hmin + 1e-12:
+            ctx.ok()
+        else:
+            ctx.bad('after_rejected_call', {'module': 'Strain'}, only, got=got if isinstance(got, str) else got[:, 0],
+                    want_fresh_module=ref[:, 0], history=f'response(nodal vector with {wrong} dof(s) per node) raised, then '
+                                            f'response(affine displacement field)')
     # ElementAverage of linear nodal fields = centroid value
     cen = fe.elem_centroids(nx, ny, nz, sz)
     gen = np.array(tab['gen'])
@@ -568,6 +597,28 @@ def _ops(ctx, pym, dom, grid, dim, nel, tab):
             ctx.ok()
         else:
             ctx.bad('element_operation_generic', sg, only, err=float(np.max(np.abs(y.ravel() - Mref @ ugen))))
+        if form == 'full' and ndof >= 2:
+            # a first call that is rejected (wrong number of dofs per node), then the valid one, on a fresh module
+            for wrong in (ndof - 1, ndof + 1):
+                sr = pym.Signal('u', ugen.copy())
+                mR = pym.ElementOperation(sr, domain=dom, element_matrix=B.copy())
+                try:
+                    _run(mR, sr, np.linspace(0.0, 1.0, nnode * wrong))
+                    continue
+                except Exception:  # noqa
+                    pass
+                ctx.ntrans += 2
+                try:
+                    yr = np.asarray(_run(mR, sr, ugen.copy()))
+                    err = float(np.max(np.abs(yr.ravel() - Mref @ ugen))) if yr.shape == out_shape else float('inf')
+                except Exception as exc:  # noqa
+                    yr, err = f"{type(exc).__name__}: {exc}"[:300], float('inf')
+                if err <= tol * maxabs(ugen):
+                    ctx.ok()
+                else:
+                    ctx.bad('after_rejected_call', dict(sg, module='ElementOperation'), only,
+                            got=yr if isinstance(yr, str) else None, err=err,
+                            history=f'response(vector with {wrong} dof(s) per node) raised, then response(valid vector)')
         Emat = np.zeros_like(Mref)
         for j in range(n):
             imp = np.zeros(n)
